@@ -11,12 +11,14 @@ Everything is drawn from the rng passed in.
 WORDS = ["alpha", "Beta", "gamma", "delta", "On", "the", "of", "Graphs", "theory", "A", "z", "x1", "und", "de", "la", "IEEE", "Proc."]
 NONASCII = ["é", "ü", "Ångström", "ß", "naïve", "Müller", "日本", "語", "é", "Ž", "ø"]
 LATIN1 = ["é", "ü", "Ångström", "ß", "naïve", "Müller", "ø"]
-SPECIAL = [" = ", ",\n", "{x}\n", "@string", "@comment", "% WARNING Parsing failed for the following 1 lines.", r"\'e", r"\"o", r"\&", r"\\", r"\%", "e-mail@host.org", "$x^2$", "$a_{i}$", "http://ex.org/a?b=1,c", "a,b", "x=y", "50\\%", "~", "--", "#", "@", "{\\'E}x", "\\{", "\\}", '\\"']
+SPECIAL = ["\\\\{x\\}", " = ", ",\n", "{x}\n", "@string", "@comment", "% WARNING Parsing failed for the following 1 lines.", r"\'e", r"\"o", r"\&", r"\\", r"\%", "e-mail@host.org", "$x^2$", "$a_{i}$", "http://ex.org/a?b=1,c", "a,b", "x=y", "50\\%", "~", "--", "#", "@", "{\\'E}x", "\\{", "\\}", '\\"']
 TYPES = ["article", "book", "Article", "inproceedings", "MISC", "techreport", "a", "x_1", "online"]
 # \w matches far more than ASCII: entry types (and keys) in other scripts, with case mappings that change length
-UTYPES = ["artículo", "Статья", "İnproceedings", "BOOK_ß", "論文", "ǅemal", "ﬁle", "２０２０", "Ångström"]
+UTYPES = ["artículo", "Статья", "İnproceedings", "BOOK_ß", "論文", "ǅemal", "ﬁle", "２０２０", "Ångström",
+          "ſtring", "strıng", "STRİNG", "ſtrıng", "cоmment", "prеamble", "misc²"]      # look-alikes of the reserved types are ordinary entry types
 UKEYS = ["Müller2020", "陳:2019", "İstanbul", "straße", "Ǆ1", "é", "ﬁ", "Σίσυφος", "x̃"]
-FKEYS = ["title", "author", "year", "journal", "month", "pages", "note", "url", "Title", "editor", "x-y", "f_1", "volume", "abstract", "doi"]
+FKEYS = ["title", "author", "year", "journal", "month", "pages", "note", "url", "Title", "editor", "x-y", "f_1", "volume", "abstract", "doi",
+         "ID", "ENTRYTYPE", "a\\{b", "x y", "ключ", "k\\}"]
 STRKEYS = ["jan", "acm", "ieee", "me", "pub", "long_name", "S1"]
 KEYCHARS = "abcdefghijklmnopqrstuvwxyzABCXYZ0123456789_:.-/+"
 
@@ -270,6 +272,11 @@ def make_doc(rng, knobs=None):
                 sep = rng.choice(["", " ", nl])
             else:
                 sep = rng.choice([nl, nl + nl, nl + nl, nl + " " + nl, nl * 3]) if k["layout"] != "wild" else rng.choice(["", " ", nl, nl + nl, "\t" + nl, nl * 4])
+                if k.get("uws") and rng.random() < 0.4:
+                    # characters str.splitlines() treats as line boundaries but the line counter does not
+                    sep += rng.choice(["\x0c", "\x0b", "\x1c", "\x1d", "\x1e", "\x85", "\u2028", "\u2029"]) + rng.choice(["", nl])
+                if rng.random() < 0.15:
+                    sep += rng.choice(["  ", "\t", "    "])       # the next block (or comment) is indented
             if kind == "icomment" and sep.strip(" \t") == "" and rng.random() < 0.8:
                 sep = nl
             emit(sep)
